@@ -220,9 +220,14 @@ func genEntries(r *Rng, n int, o Opt) (es []Entry, profile string) {
 			}
 		}
 		b := genBad(r, o)
-		if r.Chance(2, 3) { // prefer entries that satisfy the group equation and are rejected by a rule
+		switch r.Intn(3) {
+		case 0: // entries that satisfy the group equation and are rejected by a rule
 			b.K = []string{"tor", "tor0", "smRv", "sL", "tor0", "tor"}[r.Intn(6)]
 			b.Q &^= 1
+			b.K2 = ""
+		case 1: // malformed or undecodable key material (what a pre-check would refuse)
+			b.K = []string{"tK", "nK", "tK", "udA", "smA", "lK", "tS", "nS"}[r.Intn(8)]
+			b.K2 = ""
 		}
 		b.Key, b.ML = es[a].Key, es[a].ML
 		es[a] = b
@@ -549,6 +554,43 @@ func enumBatchFaults(prop string) []*Case {
 							out = append(out, &Case{Prop: prop, Check: "batch", Op: &op})
 						}
 					}
+				}
+			}
+		}
+	}
+	return out
+}
+
+// enumBorderRepeats: every kind of damaged entry as the LAST entry of a chunk,
+// repeated verbatim as the FIRST entry of the next one (and, as a control, only
+// on one side): shortcuts for "same as the previous entry" and memos keyed on
+// an entry's content are exactly wrong here.
+func enumBorderRepeats(prop string) []*Case {
+	var out []*Case
+	seed := uint64(0xB0DE)
+	kinds := []string{"tK", "nK", "tS", "nS", "lS", "udA", "udR", "smA", "smR", "ncA", "lK", "sL", "fS", "msg", "tor", "tor0", "smRv", "noRB", "torR", "pfx", "mix", "ok"}
+	for _, border := range []int{63, 127} {
+		n := border + 5
+		for _, zip := range []bool{false, true} {
+			for _, k := range kinds {
+				for _, mode := range []int{0, 1, 2} { // both sides, left only, right only
+					seed++
+					op := &Op{Fn: "VerifyBatch", Seed: mix64(seed), Opt: Opt{Zip: zip}, Rd: &DevPlan{CSeed: mix64(seed ^ 5)}}
+					op.Entries = make([]Entry, n)
+					for i := range op.Entries {
+						op.Entries[i] = Entry{K: "ok", Key: i % 3, ML: i % 11}
+					}
+					e := Entry{K: k, P: int(seed % 251), Q: int(seed%97) &^ 1, Key: 1, ML: 9}
+					switch mode {
+					case 0:
+						op.Entries[border] = e
+						op.Entries[border+1] = Entry{K: "dup", P: border}
+					case 1:
+						op.Entries[border] = e
+					case 2:
+						op.Entries[border+1] = e
+					}
+					out = append(out, &Case{Prop: prop, Check: "batch", Op: op})
 				}
 			}
 		}
